@@ -26,15 +26,41 @@ theorem add_unit_exact (e : Ep) (f : Int) (he : e.dur.Canon) (hf : f ∈ unitFac
   simp only [List.mem_cons, List.not_mem_nil, or_false] at hf
   rcases hf with h | h | h | h | h | h | h | h | h <;> subst h <;> rfl
 
-/-- float seconds that are an exact integer `k` whose product with 10⁹ is exact in binary64
-    (so that `k as f64 * Unit::Second` is `k·10⁹ ns`; holds for |k| < 2⁵³/5⁹ ≈ 4.6·10⁹ s): exact -/
-theorem add_integer_seconds_exact (e : Ep) (k : Int) (he : e.dur.Canon)
-    (hk : -9223372036 ≤ k ∧ k ≤ 9223372036) :
-    (e.add (nsDur (k * 1000000000))).dur.val = clampD (e.dur.val + k * 1000000000) := by
-  have hn := nsDur_spec (k * 1000000000) (by omega)
-  have h := add_spec e.dur _ he hn.1
-  show (Dur.add e.dur (nsDur (k * 1000000000))).val = _
-  rw [h.2, hn.2]
+/-- float seconds that are an exact integer `k` — ANY integer-valued double, of any magnitude (the code
+    takes `(seconds as i64) * Unit::Second`, a saturating cast and an exact integer product, since fix
+    62d8753; before it the product was formed in binary64 and was off by 512 ns at k = 4 611 686 019):
+    the elapsed time changes by exactly k seconds, saturating, and the scale is kept -/
+theorem add_integer_seconds_exact (e : Ep) (k : Int) (he : e.dur.Canon) :
+    (e.addWholeSeconds k).ts = e.ts ∧ (e.addWholeSeconds k).dur.Canon ∧
+    (e.addWholeSeconds k).dur.val = clampD (e.dur.val + clampD (satI64 k * 1000000000)) := by
+  have hq : fitsI64 (satI64 k) = true := by
+    unfold fitsI64 satI64; simp only [decide_eq_true_eq]
+    split
+    · omega
+    · split <;> omega
+  have hu := unitMulI64_spec Gen.NANOSECONDS_PER_SECOND (satI64 k) (by decide) hq
+  have h := add_spec e.dur _ he hu.1
+  refine ⟨rfl, h.1, ?_⟩
+  show (Dur.add e.dur _).val = _
+  rw [h.2, hu.2]
+
+/-- … hence by exactly `k` seconds whenever no bound is hit -/
+theorem add_integer_seconds_in_range (e : Ep) (k : Int) (he : e.dur.Canon)
+    (hk : DMIN ≤ k * 1000000000 ∧ k * 1000000000 ≤ DMAX)
+    (hs : DMIN ≤ e.dur.val + k * 1000000000 ∧ e.dur.val + k * 1000000000 ≤ DMAX) :
+    (e.addWholeSeconds k).dur.val = e.dur.val + k * 1000000000 := by
+  have h := (add_integer_seconds_exact e k he).2.2
+  have hsat : satI64 k = k := by
+    unfold satI64; unfold DMIN DMAX at hk; simp only [NPCs_eq] at hk
+    split
+    · omega
+    · split <;> omega
+  unfold DMIN DMAX at hk hs; simp only [NPCs_eq] at hk hs
+  have h1 : clampD (k * 1000000000) = k * 1000000000 := clampD_mid (by omega) (by omega)
+  have h2 : clampD (e.dur.val + k * 1000000000) = e.dur.val + k * 1000000000 := clampD_mid (by omega) (by omega)
+  rw [h, hsat, h1, h2]
+
+example : (⟨⟨0, 0⟩, .TAI⟩ : Ep).addWholeSeconds 4611686019 = ⟨⟨1, 1455926019000000000⟩, .TAI⟩ := by decide
 
 /-- the difference of two epochs of the same scale is the difference of their elapsed times -/
 theorem diff_same_scale (a b : Ep) (h : a.ts = b.ts) : Ep.diff a b = some (Dur.sub a.dur b.dur) := by
